@@ -246,3 +246,5 @@ def run(chk):
         check_ratlog(chk, mod, lib, name)
     from . import C01b
     C01b.run(chk, mod, lib)
+    from . import C01c
+    C01c.run(chk)
